@@ -2,10 +2,12 @@
 # usage: tools/seed_check.sh <diff> <check id> [more check ids...]   (VERIF_TIER=quick|thorough, default quick)
 # Applies the seeded change to /repo, runs the named checks, and undoes the change straight afterwards.
 D=$1; shift
+# files a patch CREATES are untracked afterwards: `git checkout -- .` does not remove them
+newfiles() { awk '/^--- \/dev\/null/{getline; sub(/^\+\+\+ b\//,""); print}' "$1"; }
 cd /verif
 git -C /repo diff --quiet || { echo "/repo is dirty; refusing"; exit 2; }
 git -C /repo apply "$D" || { echo "APPLY FAILED"; exit 2; }
-trap 'git -C /repo checkout -- .' EXIT
+trap 'git -C /repo checkout -- .; for f in $(newfiles "$D"); do rm -f "/repo/$f"; done' EXIT
 for id in "$@"; do
   out=$(VERIF_EVIDENCE_OUT=/dev/null ./check $id ${VERIF_TIER:-quick} 2>&1); code=$?
   echo "--- $id exit=$code"
